@@ -374,6 +374,25 @@ impl Format for Mpq {
     fn measures_consumption(&self) -> bool {
         false
     }
+    /// 3-deviation class.  quick: the 7 size/position/count fields of the classic header of one V2 seed;
+    /// thorough: the first 8 (V1), 11 (V2) or 17 (V4) header dwords of the listed primary seeds.
+    fn triple_sites(&self, seed: &Seed, thorough: bool) -> Vec<usize> {
+        let by_names = |names: &[&str]| -> Vec<usize> { names.iter().filter_map(|n| seed.sites.iter().position(|s| s.name == format!("header.{n}"))).collect() };
+        let first = |n: usize| -> Vec<usize> { by_names(&HDR_FIELDS.iter().take(n).map(|f| f.1).collect::<Vec<_>>()) };
+        if !thorough {
+            return if seed.name == "v2_bzip2_encrypted_shift1" {
+                by_names(&["archive_size", "hash_table_pos", "block_table_pos", "hash_table_entries", "block_table_entries", "hi_block_table_pos.lo", "hi_block_table_pos.hi"])
+            } else {
+                vec![]
+            };
+        }
+        match seed.name.as_str() {
+            "v1_plain_store_shift3_listfile" | "v1_zlib_sectored_shift0_listfile" | "v1_zlib_encrypted_fixkey_shift0" | "v1_zlib_crc_attrs_full_shift0" | "ref_v1_userdata_prefix_zlib_sectored" => first(8),
+            "v2_bzip2_encrypted_shift1" | "v2_sparse_nolistfile_attrs_crc32" | "v2_lzma_crc_shift0" | "ref_v2_deleted_slots_hash4_bzip2_single_unit_encrypted" => first(11),
+            "v4_zlib_sectored_crc_attrs_full" => first(17),
+            _ => vec![],
+        }
+    }
     fn seeds(&self) -> Vec<Seed> {
         let sc = Scratch::new("c05-mpqseed");
         let cfg = |version, shift, comp, crypto, crc, attrs, listfile, tcomp| mpqx::Config { version, shift, comp, crypto, crc, attrs, listfile, tcomp };
